@@ -29,6 +29,8 @@ PROFILES = [
     # invisible barlines (=1-, =-): they delimit measures like drawn ones, and the export replaces them by nulls
     ('kern_core', {'p_hidden_bar': 0.45, 'measures': (2, 7), 'p_split': 0.3, 'rows': (1, 3)}),
     ('kern_core', {'p_hidden_bar': 0.85, 'min_spines': 2, 'measures': (3, 5), 'p_split': 0.4, 'rows': (1, 2)}),
+    # a whole spine ends (*-) in the middle of the score - the first column as often as any other - and the others go on
+    ('kern_core', {'p_spine_end': 0.2, 'min_spines': 2, 'max_spines': 4, 'measures': (3, 6), 'rows': (2, 4), 'p_split': 0.1}),
 ]
 BOUNDARY_FROM = 8   # index of the first boundary profile in PROFILES
 # thorough tier only: more than 256 measures, more than 1000 lines
